@@ -37,6 +37,13 @@ def cases_for(tier, rng):
             continue
         n += 1
         cases.append(("k%d" % n, "(case k%d tostream_wake (labels %s))" % (n, " ".join(h)), {"kind": "tostream-woken", "len": len(h)}))
+    # ... and polled once in between by somebody else, with a waker of its own (a lost select! arm): the consumer task's next poll
+    # must register the task's waker again
+    for h in label_seqs(5 if tier == "quick" else 6, ["(n 1)", "c", "(e 7)", "poll", "poll0"]):
+        if "poll0" not in h or sum(1 for x in h if x in ("c", "(e 7)")) > 1:
+            continue
+        n += 1
+        cases.append(("k%d" % n, "(case k%d tostream_wake (labels %s))" % (n, " ".join(h)), {"kind": "tostream-two-wakers", "len": len(h)}))
     # complete_status above an operator that finishes early (take N), over a create() source: the status follows the source
     for h in label_seqs(4, ["(n 1)", "c", "(e 7)"]):
         for k in (0, 1, 2):
